@@ -819,6 +819,21 @@ func substVal(v Val, m map[*Term]*Term) Val {
 			vs[i] = substVal(x.Vs[i], m)
 		}
 		return &TupleV{vs}
+	case *RefV:
+		if x.NilT != nil {
+			nt := Subst(x.NilT, m)
+			if nt != x.NilT {
+				r := *x
+				r.NilT = nt
+				if nt.IsFalse() {
+					r.NilT = nil
+				}
+				if nt.IsTrue() {
+					r.Nil = true
+				}
+				return &r
+			}
+		}
 	}
 	return v
 }
